@@ -69,8 +69,10 @@ type line struct {
 	P   *int      `json:"p,omitempty"`
 	J   *int      `json:"j,omitempty"`
 	B   *batch    `json:"b,omitempty"`
-	Nf  *int      `json:"full,omitempty"`
-	Np  *int      `json:"partial,omitempty"`
+	// Stable: the batch handed out by the previous swap, read again just before this swap, still is what it was
+	Stable *bool `json:"stable,omitempty"`
+	Nf     *int  `json:"full,omitempty"`
+	Np     *int  `json:"partial,omitempty"`
 }
 
 var resKinds = []string{"ConfigMap", "Ingress", "IngressClass", "Service", "Secret", "Endpoints", "Pod", "Gateway", "GatewayClass", "HTTPRoute", "TCPRoute"}
@@ -224,9 +226,14 @@ func runSeq(p *pipeline.Pipeline, id string, steps []step, enc *json.Encoder) {
 	_ = enc.Encode(line{Ev: "Reset", ID: id})
 	nf, np := 0, 0
 	j := 0
+	var held *convtypes.ChangedObjects // the reconciliation keeps its batch while later events arrive
+	var heldWas *batch
 	for _, s := range append(steps, step{Ev: "Swap"}) {
 		if s.Ev == "Swap" {
-			_ = enc.Encode(line{Ev: "Swap", B: batchOf(w.Swap())})
+			stable := heldWas == nil || sameBatch(heldWas, batchOf(held))
+			held = w.Swap()
+			heldWas = batchOf(held)
+			_ = enc.Encode(line{Ev: "Swap", B: heldWas, Stable: pb(stable)})
 			continue
 		}
 		q = []string{}
@@ -242,6 +249,12 @@ func runSeq(p *pipeline.Pipeline, id string, steps []step, enc *json.Encoder) {
 		_ = enc.Encode(line{Ev: "Deliver", E: s.E, Acc: pb(acc), Q: ps(append([]string{}, q...)), P: pi(0), J: pi(j)})
 	}
 	_ = enc.Encode(line{Ev: "Counts", Nf: pi(nf), Np: pi(np)})
+}
+
+func sameBatch(a, b *batch) bool {
+	x, _ := json.Marshal(a)
+	y, _ := json.Marshal(b)
+	return string(x) == string(y)
 }
 
 // ---- concurrent run
@@ -320,9 +333,12 @@ func runConc(p *pipeline.Pipeline, id string, seed int64, producers, perProducer
 	}
 	// the swapper also plays the ConfigMap informer: its events fall in windows it knows
 	type window struct {
-		cms []done
-		b   *batch
+		cms    []done
+		b      *batch
+		stable bool
 	}
+	var held *convtypes.ChangedObjects
+	var heldWas *batch
 	var wins []window
 	srnd := rand.New(rand.NewSource(seed * 7))
 	close(start)
@@ -349,7 +365,10 @@ func runConc(p *pipeline.Pipeline, id string, seed int64, producers, perProducer
 		if srnd.Intn(3) == 0 {
 			runtime.Gosched()
 		}
-		wnd.b = batchOf(w.Swap())
+		wnd.stable = heldWas == nil || sameBatch(heldWas, batchOf(held))
+		held = w.Swap()
+		heldWas = batchOf(held)
+		wnd.b = heldWas
 		wins = append(wins, wnd)
 	}
 	wg.Wait()
@@ -404,7 +423,7 @@ func runConc(p *pipeline.Pipeline, id string, seed int64, producers, perProducer
 			}
 		}
 		emitCMs("")
-		_ = enc.Encode(line{Ev: "Swap", B: wnd.b})
+		_ = enc.Encode(line{Ev: "Swap", B: wnd.b, Stable: pb(wnd.stable)})
 	}
 	// accepted events found in no batch: they stay in the last window of the model
 	lost := 0
